@@ -85,7 +85,7 @@ var (
 	flagOut     = flag.String("out", "", "trace file (NDJSON)")
 	flagSeed    = flag.Int64("seed", 1, "seed for concretisation")
 	flagWorkers = flag.Int("workers", runtime.NumCPU(), "parallel scenarios")
-	flagHang    = flag.Duration("hang", 30*time.Second, "watchdog per scenario")
+	flagHang    = flag.Duration("hang", 120*time.Second, "watchdog per scenario")
 	flagProf    = flag.String("cpuprofile", "", "write a CPU profile")
 )
 
